@@ -530,7 +530,9 @@ CUSTOMS = [
     {"indent": 3, "graph": "digraph", "name": "p", "options": [], "nattr": "partial", "eattr": "partial"},
 ]
 
-HOSTILE_NAMES = ['a"b', "back\\slash", 'q"\\"', "sp ace", "é中", "\\", '"', "a\\\\b", "x;y", "tab\tz", "n{}", "->", "[lbl]", "a", "a", "b", "\U0001f600", "new\nline", "'", "%s", ("it's", 'q"', 1), 3.5, None, ("\\",), "cpu%%", "100%", "%d%%", 'many' + '"\\' * 20, '"' * 40, "e\u0301", "\u00e9", "\u212b", "A\u030a", "\u00c5", "\u2126"]
+HOSTILE_NAMES = ['a"b', "back\\slash", 'q"\\"', "sp ace", "é中", "\\", '"', "a\\\\b", "x;y", "tab\tz", "n{}", "->", "[lbl]", "a", "a", "b", "\U0001f600", "new\nline", "'", "%s", ("it's", 'q"', 1), 3.5, None, ("\\",), "cpu%%", "100%", "%d%%", 'many' + '"\\' * 20, '"' * 40, "e\u0301", "\u00e9", "\u212b", "A\u030a", "\u00c5", "\u2126",
+                 # values that compare (and hash) equal but print differently
+                 1, 1.0, True, 0, 0.0, False, "1", "True"]
 
 
 def hostile_names(rng, n, collide):
